@@ -187,6 +187,8 @@ class sx_str(str, metaclass=_Meta):
     startswith = _dispatch("startswith")
     endswith = _dispatch("endswith")
     find = _dispatch("find")
+    rfind = _dispatch("rfind")
+    split = _dispatch("split")
 
     def __new__(cls, *args, **kw):
         if args and is_symbolic(args[0]):
